@@ -979,7 +979,13 @@ class _FuncAnalysis:
         elif isinstance(pat_expr, ast.Attribute) and self.ctx is not None:
             hit = self.repo.class_attr_expr(self.ctx, pat_expr.attr)
             cand = hit[0] if hit else None
-        if isinstance(cand, ast.Call) and call_name(cand) in ("re.compile", "compile") and cand.args:
+        def _is_re_compile(c_: ast.Call) -> bool:
+            n_ = call_name(c_)
+            if n_ in ("re.compile",):
+                return True
+            imp = (hit[1].module if (isinstance(pat_expr, ast.Attribute) and self.ctx is not None and (hit := self.repo.class_attr_expr(self.ctx, pat_expr.attr))) else self.mod).imports.get(n_)
+            return imp == ("re", "compile")
+        if isinstance(cand, ast.Call) and _is_re_compile(cand) and cand.args:
             pat = self.repo.fold(cand.args[0], self.mod, self.ctx)
             if pat is NOFOLD and isinstance(cand.args[0], ast.JoinedStr):
                 pat = None
@@ -1028,8 +1034,7 @@ class _FuncAnalysis:
         # the match must have succeeded on the path to the int() call
         for atom, val in self.facts(arg):
             if (atom == mvar.id and val) or (atom in (f"{mvar.id} is None", f"not {mvar.id}") and not val) or (atom == f"{mvar.id} is not None" and val) or (atom.startswith(f"({mvar.id} :=") and " is None" in atom and not val) or (atom.startswith(f"({mvar.id} :=") and " is None" not in atom and val):
-                if "\\d" in pat and not (tree.state.flags & re.ASCII):
-                    return None  # \d without re.ASCII also matches non-ASCII decimal digits: int() accepts those too
+                # \d (with or without re.ASCII) matches decimal digits of Unicode category Nd only, all of which int() accepts
                 return f"group {k!r} of the dominating successful match of {pat!r} is digits only"
         return None
 
